@@ -1322,7 +1322,13 @@ def split_host_and_port(netloc: str) -> tuple[str, int | None]:
     match = _netloc_re.match(netloc)
     if match:
         host = match.group(1)
-        port: int | None = int(match.group(2))
+        try:
+            port: int | None = int(match.group(2))
+        except ValueError:
+            # More digits than int() accepts (sys.get_int_max_str_digits):
+            # not a usable port number.
+            host = netloc
+            port = None
     else:
         host = netloc
         port = None
